@@ -22,6 +22,7 @@ class MethodSpec:
         self.ret_expr = None
         self.self_lt = None
         self.nested = []          # (impl blocks) nested dependency calls: (method, fn_id, arg, is_async)
+        self.pre = ""             # extra statements at the start of an implementation body
 
     def generics_text(self, extra_first=None):
         items = list(self.lifetimes)
@@ -61,6 +62,8 @@ class MethodSpec:
         b = ['::vrt::enter("%s", ::vrt::tn(%s), ::vrt::addr(%s), &[%s]);' % (fn_id, recv_expr, recv_expr, logs)]
         if self.is_async:
             b.append("::vrt::yield_once().await;")
+        if self.pre:
+            b.append(self.pre)
         for meth, _fid, arg, is_async in self.nested:
             b.append("let _ = %s.%s(%s)%s;" % (recv_expr, meth, arg, ".await" if is_async else ""))
         if self.ret == "owned":
